@@ -172,7 +172,8 @@ pub fn run(ctx: &Ctx) -> Report {
     let mut rep = Report::new("C12");
     let mut model = Model::spawn();
     let mut rng = Rng::new(ctx.seed);
-    if let Some(r) = &ctx.replay {
+    let replay_many = ctx.replay.as_ref().map(|r| r["case"]["kind"] == "many-ids" || r["case"]["case"]["kind"] == "many-ids").unwrap_or(false);
+    if let Some(r) = ctx.replay.as_ref().filter(|_| !replay_many) {
         let c = &r["case"];
         let c = if c.get("case").is_some() { &c["case"] } else { c };
         let ops: Vec<Op> = c["ops"].as_array().unwrap().iter().map(Op::from_json).collect();
@@ -201,6 +202,34 @@ pub fn run(ctx: &Ctx) -> Report {
         }
     }
     if !CONSTS.scaled { check_mlar_pool(&mut rep, &mut rng); if rep.full() { return rep; } }
+    // more than 2^16 files (ids beyond 65535): a few of them, around that limit and at the very end, extracted
+    // linearly and compared with reading them individually (oracle only)
+    if !CONSTS.scaled {
+        let n = 65_540usize;
+        let mut ops: Vec<Op> = Vec::with_capacity(n + 8);
+        for i in 0..n - 2 { ops.push(Op::Add { name: format!("f{i}"), size: 3, src: vec![(i % 251) as u8, (i / 251 % 251) as u8, 7] }); }
+        ops.extend([Op::Start("last_a".into()), Op::Start("last_b".into()), Op::Append { id: (n - 2) as u64, size: 2, src: vec![1, 2] }, Op::Append { id: (n - 1) as u64, size: 2, src: vec![3, 4] },
+            Op::Append { id: (n - 2) as u64, size: 1, src: vec![5] }, Op::End((n - 2) as u64), Op::End((n - 1) as u64), Op::Finalize]);
+        let cfg = Cfg::plain();
+        let b = build(&cfg, &ops);
+        rep.eval(fnv(b"more-than-2^16-files"), true);
+        rep.count("many-ids");
+        let chosen: Vec<String> = ["f0", "f65535", "f65536", "f65537", "last_a", "last_b"].iter().map(|s| s.to_string()).collect();
+        match (linear(&b.bytes, &cfg, &chosen, &mut rng), read_all(&b.bytes, &cfg)) {
+            (Ok(lin), Ok(ind)) => {
+                for nme in &chosen {
+                    let want = ind.get(nme).and_then(|f| f.content.clone().ok());
+                    if lin.get(nme) != want.as_ref() || want.is_none() {
+                        rep.violation("oracle", "C12/eq", json!({"what":"linear-differs","many_ids":true}), &format!("archive of {n} files: linear extraction of {nme:?} gives {:?} bytes, reading it individually {:?}", lin.get(nme).map(|v| v.len()), want.map(|v| v.len())),
+                            json!({"kind":"many-ids","files":n}));
+                        break;
+                    }
+                }
+            }
+            (l, i) => { rep.violation("oracle", "C12/eq", json!({"what":"many-ids-fails"}), &format!("archive of {n} files: linear {:?}, individual {:?}", l.map(|_| ()).err(), i.map(|_| ()).err()), json!({"kind":"many-ids","files":n})); }
+        }
+        if rep.full() { return rep; }
+    }
     // alignment cases (see gens::aligned_ops): linear extraction reads across the block boundary sequentially
     for residue in [1usize, 2] {
         if let Some(ops) = aligned_ops(&mut rng, residue) {
